@@ -29,6 +29,7 @@ def spec(pid, props_file, rule, explanation, nontrivial, extra=None):
         "nontrivial": nontrivial,
         "rule": rule,
         "level": "proof",
+        "structure_code": None,
         "explanation": explanation,
         "assumptions": ASSUMPTIONS,
     }
